@@ -203,6 +203,8 @@ REPRODUCERS = [
     ("crash.extend_cycle_through_attribute", [N("Type", "T2", kids=[A("b", t="-", kids=[N("Extend", t="T2"), A("a")])]), svc(meth(N("Payload", t="T2"), N("HTTP", kids=[N("POST", "/")])))]),
     ("crash.extend_cycle_through_attribute", [N("Type", "T1", kids=[N("Extend", t="T2")]), N("Type", "T2", kids=[F("b", kids=[N("Extend", t="T1"), F("a")])]),
                                               svc(meth(N("Payload", t="T2"), N("GRPC", kids=[])))]),
+    ("crash.extend_cycle_through_attribute", [N("Type", "T2", kids=[A("b", t="-", kids=[N("Extend", t="T2"), A("a")])]),
+                                              svc(meth(N("Payload", t="MapSnT2"), N("HTTP", kids=[N("POST", "/x")])))]),       # (validation does not look into maps)
     ("crash.meta_without_value", [N("Type", "T1", kids=[N("Meta", "struct:pkg:path", "-"), A("a")]), svc(meth(N("Payload", t="T1")))]),
     ("crash.meta_without_value", [N("Type", "T1", kids=[N("Meta", "struct:type:name", "-"), A("a"), N("Required", "zz")]), svc(meth(N("Payload", t="T1")))]),
     ("crash.api_grpc_error_response", [N("API", "api1", kids=[N("GRPC", kids=[N("Response", "e1", "5", v="plain")])]), svc(meth(N("Error", "e1"), N("GRPC", kids=[])))]),
